@@ -270,6 +270,25 @@ def rec_two(b, c, block_info=None):
     return b + c
 
 
+def _rec_mixed(b, c, block_info):
+    if block_info is not None and getattr(b, "size", 0) and getattr(c, "size", 0):
+        i0, i1 = block_info[0], block_info[1]
+        LOG.append({"kind": "mixed", "loc": tuple(i0["chunk-location"]), "aloc": [tuple(t) for t in i0["array-location"]], "bshape": tuple(b.shape),
+                    "aloc1": [tuple(int(v) for v in t) for t in i1["array-location"]], "cbshape": tuple(c.shape), "c0": float(np.asarray(c).ravel()[0]), "nchunks1": tuple(i1["num-chunks"]), "loc1": tuple(i1["chunk-location"])})
+
+
+def rec_two_mixed0(b, c, block_info=None):
+    """2-d b, 1-d c aligned with b's last axis; drop_axis=0."""
+    _rec_mixed(b, c, block_info)
+    return b.sum(axis=0) + c
+
+
+def rec_two_mixed1(b, c, block_info=None):
+    """2-d b, 1-d c aligned with b's last axis; drop_axis=1 (c is contracted)."""
+    _rec_mixed(b, c, block_info)
+    return b.sum(axis=1) + c.sum()
+
+
 def rec_newaxis(b, block_info=None):
     if block_info is not None and getattr(b, "size", 0):
         i0 = block_info[0]
